@@ -12,7 +12,7 @@
                          F = q*(upwind c) + bound_dir (q*b) + bound_neu b, for one component *)
 From Coq Require Import List ZArith Bool Arith Lia Reals Lra.
 Import ListNotations.
-From PP Require Import Model.C17 Proofs.C17.
+From PP Require Import Model.C17 Proofs.C17 Proofs.C17_multi.
 
 (* Upstream selection.  For every flux type (the code only inspects sign(q) >= 0), incidence
    with at most one cell per side, flags, component count k and every run that does not raise:
@@ -173,6 +173,37 @@ Theorem C17_max_principle :
 Proof. exact steps_bounded. Qed.
 Print Assumptions C17_max_principle.
 
+(* k interleaved components (component j of cell i at index i*k+j, boundary values likewise,
+   matrices as returned for num_components = k): every component is conserved ... *)
+Theorem C17_conservative_k :
+  forall (I : input R) (o : output) (b vol : nat -> R) (dt : R),
+    discretize R nonnegR I = Ok o -> dim I <> 0%nat ->
+    wf_inc I ->
+    (forall f : nat, (f < nf I)%nat -> noflow_k I b f) ->
+    (forall i : nat, (i < nc I)%nat -> vol i <> 0%R) ->
+    forall (n : nat) (c : nat -> R) (j : nat), (j < ncomp I)%nat ->
+      total_k I vol j (steps_k I o b vol dt n c) = total_k I vol j c.
+Proof. exact conservative_k. Qed.
+Print Assumptions C17_conservative_k.
+
+(* ... and stays within its own initial bounds under the CFL limit with a divergence-free
+   flux, for any number of steps. *)
+Theorem C17_max_principle_k :
+  forall (I : input R) (o : output) (b vol : nat -> R) (dt : R),
+    discretize R nonnegR I = Ok o -> dim I <> 0%nat ->
+    one_sided (cf I) -> wf_inc I ->
+    (forall f : nat, (f < nf I)%nat -> noflow_k I b f) ->
+    (0 <= dt)%R ->
+    (forall i : nat, (i < nc I)%nat -> (0 < vol i)%R /\ (dt * outflow I i <= vol i)%R) ->
+    (forall i : nat, (i < nc I)%nat -> div_cell I (q I) i = 0%R) ->
+    forall j : nat, (j < ncomp I)%nat ->
+    forall (c : nat -> R) (m M : R),
+      (forall i : nat, (i < nc I)%nat -> (m <= c (i * ncomp I + j)%nat <= M)%R) ->
+      forall n i : nat, (i < nc I)%nat ->
+        (m <= steps_k I o b vol dt n c (i * ncomp I + j)%nat <= M)%R.
+Proof. exact max_principle_k. Qed.
+Print Assumptions C17_max_principle_k.
+
 (* The boolean checker the harness evaluates on every generated incidence. *)
 Theorem C17_one_sided_checker :
   forall cf : list inc, one_sidedb cf = true -> one_sided cf.
@@ -264,4 +295,43 @@ Proof.
   split.
   { intros j Hj. cbn in Hj. destruct j as [|[|j]]; [| |lia]; cbn; lra. }
   intros f. cbn. lra.
+Qed.
+
+(* the ring grid with three components: the hypotheses of the k-component theorems hold *)
+Definition ex3 : input R :=
+  {| dim := 1; nf := 2; nc := 2;
+     cf := [(0, 0, 1%Z); (0, 1, (-1)%Z); (1, 1, 1%Z); (1, 0, (-1)%Z)];
+     q := fun _ => 1%R;
+     is_dir := fun _ => false; is_neu := fun _ => false; ncomp := 3 |}.
+
+Example C17_nonvacuous_step_k :
+  exists o : output,
+    discretize R nonnegR ex3 = Ok o /\ dim ex3 <> 0%nat /\
+    one_sided (cf ex3) /\ wf_inc ex3 /\
+    (forall f : nat, (f < nf ex3)%nat -> noflow_k ex3 (fun _ => 0%R) f) /\
+    (forall i : nat, (i < nc ex3)%nat -> div_cell ex3 (q ex3) i = 0%R) /\
+    (forall i : nat, (i < nc ex3)%nat -> (0 < 1)%R /\ (1 / 2 * outflow ex3 i <= 1)%R).
+Proof.
+  assert (Hex : exists o, discretize R nonnegR ex3 = Ok o).
+  { apply total_theorem.
+    - intros f c s Hin. cbn in Hin.
+      repeat (destruct Hin as [Hin|Hin]; [injection Hin as ? ? ?; subst; cbn; lia|]). destruct Hin.
+    - intros f Hf. right. right. cbn in Hf.
+      destruct f as [|[|f]]; [| |lia].
+      + split; [exists 0%nat, 1%Z | exists 1%nat, (-1)%Z]; cbn; split; try lia; tauto.
+      + split; [exists 1%nat, 1%Z | exists 0%nat, (-1)%Z]; cbn; split; try lia; tauto. }
+  destruct Hex as [o Ho]. exists o.
+  split; [exact Ho|]. split; [cbn; lia|].
+  split; [apply one_sidedb_sound; vm_compute; reflexivity|].
+  split.
+  { intros t Hin. cbn in Hin.
+    repeat (destruct Hin as [Hin|Hin]; [subst t; cbn; lia|]). destruct Hin. }
+  split.
+  { intros f Hf. right. cbn in Hf. destruct f as [|[|f]]; [| |lia]; repeat split. }
+  split.
+  { intros i Hi. cbn in Hi. destruct i as [|[|i]]; [| |lia];
+      unfold div_cell, div_list, tc, ts, tf; cbn [cf ex3 fold_right fst snd Nat.eqb q]; lra. }
+  intros i Hi. split; [lra|]. cbn in Hi. destruct i as [|[|i]]; [| |lia];
+    unfold outflow, out_list, tc, ts, tf; cbn [cf ex3 fold_right fst snd Nat.eqb q];
+    rewrite ?Rmult_1_l; rewrite (Rmax_left 1 0) by lra; rewrite (Rmax_right (-1 * 1) 0) by lra; lra.
 Qed.
